@@ -157,6 +157,7 @@ def run(ctx: vlib.Ctx):
     # S: independent oracle on every dump
     n_fail = 0
     failing = set()
+    shrunk = set()
     for idx, (origin, case) in enumerate(items):
         feats = _features(case)
         for f in feats:
@@ -168,13 +169,16 @@ def run(ctx: vlib.Ctx):
         if res:
             failing.add(idx)
             n_fail += 1
-        for sig, msg in res[:1]:
+        for k, (sig, msg) in enumerate(res):
             rep = dict(origin)
             if not case.get("error") and not sig.startswith("cfg:"):
-                ns, es = shrink_graph(case["nodes"], case["edges"], sig)
+                ns, es = shrink_graph(case["nodes"], case["edges"], sig) if k == 0 and sig not in shrunk else (case["nodes"], case["edges"])
+                shrunk.add(sig)
                 rep.update({"kind": "graph", "nodes": ns, "edges": [list(e) for e in es]})
             else:
-                rep.update({"kind": "source" if "source" in origin else "stdlib"})
+                # CFG/CDG construction failed or the CFG is malformed: the program (or graph) itself is the replay
+                kind = "source" if "source" in origin else "stdlib" if ".py:" in str(origin.get("origin")) else "graph"
+                rep.update({"kind": kind, "nodes": case["nodes"], "edges": [list(e) for e in case["edges"]]})
             ctx.fail(sig, f"{origin.get('origin')}: {msg}", rep)
     ctx.leg("S", oracle_failures=n_fail, dumps=len(items))
     for origin, case in items[n_corpus:n_corpus + 3]:
@@ -184,7 +188,8 @@ def run(ctx: vlib.Ctx):
                        "is non-trivial when its CFG has at least one conditional edge; distinct = distinct (nodes, edges)")
 
     # K: translation validation inside Coq
-    eligible = [i for i, (_, c) in enumerate(items) if not c.get("error") and len(c["nodes"]) <= cap]
+    eligible = [i for i, (_, c) in enumerate(items)
+                if (not c.get("error") or c["error"].startswith("cdg:")) and c["nodes"] and len(c["nodes"]) <= cap]
     ctx.count("coq:skipped-too-large", sum(1 for _, c in items if len(c["nodes"]) > cap))
     # spread the heavy cases over the shards
     eligible.sort(key=lambda i: -len(items[i][1]["nodes"]))
